@@ -67,6 +67,7 @@ type Node struct {
 	L, R   int   // opening and closing bracket/paren/brace
 	Ls, Rs []int // KIndex: brackets of each index; KIf: Ls = positions of if/elif keywords
 	End    int   // offset just past the last token
+	SPos   int   // (parsed trees only) offset reported by the node's StartPos()
 }
 
 // ---- constructors ---------------------------------------------------------
@@ -347,6 +348,12 @@ func Normalize(n *Node) *Node {
 	case KUnary:
 		if Prec(n.Kids[0]) < 7 {
 			n.Kids[0] = Paren(n.Kids[0])
+		}
+	case KForIn:
+		// `for v in <iter> {` is parsed as the in-expression `v in <iter>`: an
+		// iterable binding no tighter than `in` needs parentheses
+		if Prec(n.Kids[1]) <= 3 {
+			n.Kids[1] = Paren(n.Kids[1])
 		}
 	}
 	return n
